@@ -128,6 +128,29 @@ let run (args : (string * string) list) : string =
              let dr = qred (dangling_rank (nat_of_int n) (predf gt) (vecf sol)) in
              let ((xs', _), nrm) = sweep gt alpha v md order (fun _ _ -> false) sol dr in
              add "fixpt" (okf (qeq_bool nrm q0 && List.for_all2 (fun a b -> qeq_bool a b) xs' sol) "sweep-moves-the-solution")
+           end;
+           (* the statement S_error_bound (not proved at the level of the executable sweep):
+              evaluated on a pseudo-random write order and staleness pattern, two sweeps *)
+           if n <= 8 && get_int args "arcs" <= 30 then begin
+             let st = Random.State.make [| Hashtbl.hash (get args "id"); n |] in
+             let perm = Array.init n (fun i -> i) in
+             for i = n - 1 downto 1 do
+               let j = Random.State.int st (i + 1) in
+               let t = perm.(i) in perm.(i) <- perm.(j); perm.(j) <- t
+             done;
+             let order = List.map nat_of_int (Array.to_list perm) in
+             let tbl = Array.init n (fun _ -> Array.init n (fun _ -> Random.State.bool st)) in
+             let stale i j = tbl.(int_of_nat i).(int_of_nat j) in
+             let ok = ref true in
+             let cur = ref v in
+             for _ = 1 to 2 do
+               let dr = qred (dangling_rank (nat_of_int n) (predf gt) (vecf !cur)) in
+               let ((xs', _), nrm) = sweep gt alpha v md order stale !cur dr in
+               let lhs = qmult (qminus q1 alpha) (l1dist xs' sol) in
+               if not (qle lhs (qmult alpha nrm)) then ok := false;
+               cur := xs'
+             done;
+             add "asyncbound" (okf !ok "model-sweep-exceeds-norm-delta-bound")
            end
          end);
       (* deterministic trajectory: k single-threaded iterations vs the model's Gauss-Seidel sweeps *)
